@@ -410,7 +410,9 @@ def sym_groups(ctx):
             n = N_OF[alg]
             L = u["levels"]
             params = [(w, 2)] * L
-            p = {1: 8 * n + 9, 2: 4 * n + 5, 4: 2 * n + 3, 8: n + 2}[w]
+            nu = 8 * n // w
+            nv = -(-((nu * ((1 << w) - 1)).bit_length()) // w)        # ceil((floor(log2(u(2^w-1))) + 1) / w), RFC 8554 Appendix B
+            p = nu + nv
             S = 12 + n + n * p + 2 * n
             Pb = 24 + n
             name = "c02/sym/%s/%s/w%d" % (cfg.replace(".cfg", ""), alg, w)
